@@ -852,17 +852,34 @@ class Evaluator:
             text = ""
             for pc in pieces:
                 if isinstance(pc, str):
-                    text += pc
+                    if isinstance(text, list):
+                        text[-1] += pc
+                    else:
+                        text += pc
                     continue
                 if len(pc) != 3 or pc[2] != "new_display":
                     raise Unrecognised(f"format placeholder {pc[2:]} is not a plain Display")
                 v = self.ev(fargs[pc[1]], env)
-                if v[0] == "str":
+                if v[0] == "str" and not isinstance(text, list):
                     text += v[1]
-                elif v[0] == "int":
+                elif v[0] == "int" and not isinstance(text, list):
                     text += str(v[1])
+                elif v[0] in ("str", "int"):
+                    pass
+                elif getattr(self, "fmt_symbolic", False):
+                    # the written text as a sequence of literal pieces and displayed values that are not known strings
+                    if not isinstance(text, list):
+                        text = [text]
+                    text.append(("shown", v))
+                    text.append("")
+                    continue
                 else:
                     raise Unrecognised(f"Display of {str(v)[:40]}")
+                if isinstance(text, list):
+                    text[-1] += v[1] if v[0] == "str" else str(v[1])
+                    text = text      # (the literal tail keeps growing in place)
+            if isinstance(text, list):
+                return self.atoms["fmt:sink"]([self.ev(e["args"][0], env), ("pieces",) + tuple(x for x in text if x != "")])
             return self.atoms["fmt:sink"]([self.ev(e["args"][0], env), ("str", text)])
         if e.get("ctor", "").endswith("Option::Some"):
             return ("some", self.ev(e["args"][0], env))
@@ -1151,6 +1168,10 @@ class Evaluator:
                 return ("unit",)
             if short == "is_empty" and len(args) == 1:
                 return ("bool", len(seq) == 1)
+            if short == "join" and len(args) == 2 and args[1][0] == "str":
+                if all(x[0] == "str" for x in seq[1:]):
+                    return ("str", args[1][1].join(x[1] for x in seq[1:]))
+                return ("joined", args[1]) + tuple(seq[1:])          # a list with unknown members, joined: kept as such
             if short in ("front", "first") and len(args) == 1:
                 return ("some", seq[1]) if len(seq) > 1 else ("none",)
             if short == "all" and len(args) == 2:
